@@ -20,11 +20,11 @@ import (
 
 // Style of a block box of the abstract tree (lengths in px; the wire unit is 1/4 px).
 type Style struct {
-	BI, BB, BA     string
-	Orph, Wid      int
-	Pg             int // used page name: 0 = "", k = "n<k>"
-	Root           bool
-	MT, MB         float64
+	BI, BB, BA      string
+	Orph, Wid       int
+	Pg              int // used page name: 0 = "", k = "n<k>"
+	Root            bool
+	MT, MB          float64
 	PT, PB, BT, BBw float64
 	// explicit (author) values, for the HTML text
 	expl []string
